@@ -90,8 +90,10 @@ mixed error_handler(mapping m, int caught) {
   return 0;
 }
 
+int log_compile = 0;
+void set_clog(int v) { log_compile = v; }
 void log_error(string file, string msg) {
-  if (log_applies) vlog("\"e\":\"CompileErr\",\"file\":" + jq(file) + ",\"msg\":" + jq(replace_string(msg, "\n", "")));
+  if (log_applies || log_compile) vlog("\"e\":\"CompileErr\",\"file\":" + jq(file) + ",\"msg\":" + jq(replace_string(msg, "\n", "")));
 }
 
 void crash(string a, mixed b, mixed c) { vlog("\"e\":\"Crash\",\"why\":" + jq(a)); }
